@@ -212,7 +212,7 @@ StepOK ==
          Tainted \/
          (/\ P_Op(a, Sc, NewestOf(mem), Last(mem.segs).base, mem.hw, obs', ScanOf(fs', mem'), mem'.hw)
           /\ C05_NoGhost(Ghostable(a, Sc, Last(mem.segs).base, NewestOf(mem), mem.hw), ScanOf(fs', mem'), NewestOf(mem'))
-          /\ StateOK1(fs', mem'))
+          /\ StateOKAfter(Sc, ScanOf(fs', mem'), NewestOf(mem'), RdOf(fs', mem'), mem'.ep))
 StepsOK == [][StepOK]_mcvars
 
 \* named single-oracle variants (to see which oracle a model-level defect trips)
